@@ -170,3 +170,40 @@ func SortedKeys(m map[string]interface{}) []string {
 	sortStr(ks)
 	return ks
 }
+
+// GoTyped returns a copy of x in which some whole numbers are Go ints, int64s
+// or float32s and some nested maps are named map types, the way values look
+// after an action has produced them in memory (goja exports integers as int64).
+// mk converts a nested map into a named map type (e.g. match.Bindings).
+func GoTyped(r *rand.Rand, x interface{}, mk func(map[string]interface{}) interface{}, top bool) interface{} {
+	switch t := x.(type) {
+	case float64:
+		if t == float64(int64(t)) {
+			switch r.Intn(5) {
+			case 0:
+				return int64(t)
+			case 1:
+				return int(t)
+			case 2:
+				return float32(t)
+			}
+		}
+		return t
+	case map[string]interface{}:
+		m := make(map[string]interface{}, len(t))
+		for k, v := range t {
+			m[k] = GoTyped(r, v, mk, false)
+		}
+		if !top && mk != nil && r.Intn(4) == 0 {
+			return mk(m)
+		}
+		return m
+	case []interface{}:
+		a := make([]interface{}, len(t))
+		for i, v := range t {
+			a[i] = GoTyped(r, v, mk, false)
+		}
+		return a
+	}
+	return x
+}
